@@ -1,7 +1,8 @@
 """C11 — copies and sibling instances share no mutable state.
 
 K  : a history of operations / copies (three routes) / instantiations / class mutations is run on the real fsic objects and on the
-     Coq heap model (Heap.run_hevents, vm_compute); compared: the full object tree below every root (instances AND class objects)
+     Coq heap model (Heap.run_hevents / Heap.check_kcase extracted to OCaml: ExtrOcamlBasic + ExtrOcamlString only, Z kept as Z,
+     nat as nat; build products under coq/Extract/Heap/); compared: the full object tree below every root (instances AND class objects)
      and, for every pair of roots, the set of shared objects named by their first DFS paths (identity scan vs. the model's
      prediction of what is shared).
 O  : the property itself on the real objects: a copy is of the same class and equal in state (and in internal aliasing) to the
@@ -10,7 +11,13 @@ O  : the property itself on the real objects: a copy is of the same class and eq
      object is reachable from two roots; no class-level mutable is reachable from an instance.
 """
 import copy as _copy
+import glob
+import hashlib
+import json
 import math
+import os
+import subprocess
+import threading
 
 import lib
 
@@ -837,14 +844,163 @@ def c_case(case, obs):
         lib.clist(c_ctree(t) for t in obs['views']), c_sharing(obs['sharing']))
 
 
+# --------------------------------------------------------------------------- extraction of the model + OCaml driver
+EXTRACT_V = r"""
+Require Import PyBase Heap.
+Require Import ExtrOcamlBasic ExtrOcamlString.
+Extraction Language OCaml.
+Extraction "%(out)s" check_kcase kcase_final root_views sharing solve_ops linker_solve_ops new_list new_arr.
+"""
+
+
+def _ext_dir():
+    return os.path.join(lib.COQ, 'Extract', 'Heap')
+
+
+def build_driver():
+    """(Re)build the extracted heap model + driver under lib.COQ/Extract/Heap/ when missing or stale -> (exe, error or None)"""
+    d = _ext_dir()
+    os.makedirs(d, exist_ok=True)
+    exe = os.path.join(d, 'driver')
+    driver_ml = open(os.path.join(lib.HERE, 'heap_driver.ml')).read()
+    vos = [os.path.join(lib.COQ, 'Base', 'PyBase.vo'), os.path.join(lib.COQ, 'Heap', 'Heap.vo')]
+    for v in vos:
+        if not os.path.exists(v):
+            return exe, 'model file %s is not compiled' % v
+    stamp = hashlib.sha256((driver_ml + EXTRACT_V).encode()).hexdigest()
+    for v in vos:
+        stamp += ':%s' % hashlib.sha256(open(v, 'rb').read()).hexdigest()
+    stamp_file = os.path.join(d, 'stamp')
+
+    def fresh():
+        return os.path.exists(exe) and os.path.exists(stamp_file) and open(stamp_file).read() == stamp
+    if fresh():
+        return exe, None
+    import fcntl
+    with open(os.path.join(d, '.lock'), 'w') as lk:
+        fcntl.flock(lk, fcntl.LOCK_EX)
+        if fresh():
+            return exe, None
+        cases = os.path.join(lib.COQ, 'cases')
+        os.makedirs(cases, exist_ok=True)
+        base = 'extract_heap_%d' % os.getpid()
+        with open(os.path.join(cases, base + '.v'), 'w') as f:
+            f.write(EXTRACT_V % {'out': os.path.join(d, 'model.ml')})
+        try:
+            p = subprocess.run(['coqc', '-R', '..', 'Fsic', '-w', '-notation-overridden,-extraction', base + '.v'],
+                               cwd=cases, capture_output=True, text=True, timeout=600)
+        finally:
+            for f in glob.glob(os.path.join(cases, base + '.*')) + glob.glob(os.path.join(cases, '.' + base + '.*')):
+                try:
+                    os.remove(f)
+                except OSError:
+                    pass
+        if p.returncode != 0:
+            return exe, 'extraction failed: ' + (p.stderr or p.stdout)[-1500:]
+        with open(os.path.join(d, 'driver.ml'), 'w') as f:
+            f.write(driver_ml)
+        for flags in (['-O2'], []):
+            p = subprocess.run(['ocamlfind', 'ocamlopt'] + flags + ['-w', '-a', 'model.mli', 'model.ml', 'driver.ml', '-o', 'driver'],
+                               cwd=d, capture_output=True, text=True, timeout=600)
+            if p.returncode == 0:
+                break
+        if p.returncode != 0:
+            return exe, 'ocamlopt failed: ' + (p.stderr or p.stdout)[-1500:]
+        with open(stamp_file, 'w') as f:
+            f.write(stamp)
+    return exe, None
+
+
+def run_driver(lines, dump=False, timeout=1500):
+    """-> (list of answer lines, error or None); the cases are spread over lib.NPROC driver processes"""
+    exe, e = build_driver()
+    if e:
+        return None, e
+    nproc = max(1, min(lib.NPROC, (len(lines) + 99) // 100))
+    chunks = [lines[i::nproc] for i in range(nproc)]
+    outs = [None] * nproc
+
+    def work(i):
+        try:
+            p = subprocess.run([exe] + (['dump'] if dump else []), input='\n'.join(chunks[i]) + '\n', capture_output=True, text=True,
+                               timeout=timeout, env=dict(os.environ, OCAMLRUNPARAM='l=2000M'))
+            outs[i] = (p.stdout, p.stderr)
+        except subprocess.TimeoutExpired:
+            outs[i] = ('', 'timeout')
+    ths = [threading.Thread(target=work, args=(i,)) for i in range(nproc)]
+    for t in ths:
+        t.start()
+    for t in ths:
+        t.join()
+    res = [None] * len(lines)
+    for i in range(nproc):
+        rows = outs[i][0].splitlines()
+        if len(rows) != len(chunks[i]):
+            return None, 'heap driver produced %d lines for %d cases: %s' % (len(rows), len(chunks[i]), outs[i][1][-500:])
+        for j, row in enumerate(rows):
+            res[i + j * nproc] = row
+    return res, None
+
+
 def correspond(cases, obs, tag, tier):
-    items = [c_case(c, o) for c, o in zip(cases, obs)]
-    return lib.run_coq_cases(tag, PREAMBLE, items, 'bad_idx check_kcase 0%nat cs', shard=60, timeout=1500)
+    """the extracted Heap.check_kcase (model's run of the history, its tree below every root and its shared-object scan, compared
+    with the observed ones inside the extracted code) on every case"""
+    lines = []
+    for c, o in zip(cases, obs):
+        if not isinstance(o, dict) or 'views' not in o:
+            lines.append(None)
+        else:
+            lines.append(c_case(c, o).replace('\n', ' '))
+    idx = [i for i, l in enumerate(lines) if l is not None]
+    res, err = run_driver([lines[i] for i in idx])
+    if err:
+        return [], [err]
+    bad = [i for i, l in enumerate(lines) if l is None]
+    errors = []
+    for i, r in zip(idx, res):
+        if r == '0':
+            bad.append(i)
+        elif r != '1':
+            bad.append(i)
+            if len(errors) < 5:
+                errors.append('case %d: driver says %r' % (i, r))
+    return sorted(bad), errors
 
 
 def explain(case, obs):
-    term = c_case(case, obs)
-    return lib.coq_eval('explainC11', PREAMBLE, 'let c := %s in (sharing (kcase_final c), root_views (kcase_final c) 3%%nat)' % term)[-4000:]
+    res, err = run_driver([c_case(case, obs).replace('\n', ' ')], dump=True)
+    if err:
+        return err
+    try:
+        m = json.loads(res[0])
+    except ValueError:
+        return res[0][:2000]
+    out = []
+    for i, (mv, iv) in enumerate(zip(m['views'], obs['views'])):
+        d = _tree_diff(mv, iv)
+        if d:
+            out.append('root %d, path %s: model %s / implementation %s' % (i, list(d[0]), str(d[1])[:200], str(d[2])[:200]))
+    if len(m['views']) != len(obs['views']):
+        out.append('model has %d roots, implementation %d' % (len(m['views']), len(obs['views'])))
+    if m['sharing'] != obs['sharing']:
+        out.append('shared objects: model %s / implementation %s' % (str([(i, j, len(l)) for i, j, l in m['sharing']]),
+                                                                     str([(i, j, len(l)) for i, j, l in obs['sharing']])))
+    return '; '.join(out) if out else 'model and implementation agree on this case'
+
+
+def _tree_diff(a, b, path=()):
+    if isinstance(a, list) and isinstance(b, list) and len(a) == 2 and len(b) == 2 and isinstance(a[0], list) and isinstance(b[0], list):
+        if a[0] != b[0]:
+            return path, ['kind'] + a[0], ['kind'] + b[0]
+        ka, kb = [c[0] for c in a[1]], [c[0] for c in b[1]]
+        if ka != kb:
+            return path, ['keys'] + ka, ['keys'] + kb
+        for (k, x), (_, y) in zip(a[1], b[1]):
+            d = _tree_diff(x, y, path + (k,))
+            if d:
+                return d
+        return None
+    return None if a == b else (path, a, b)
 
 
 # --------------------------------------------------------------------------- oracle
